@@ -52,6 +52,7 @@ func init() {
 type c07Config struct {
 	seg, elem, comp, rep, rel string
 	ignoreCRLF              bool
+	openEnd                 bool // the last segment is not terminated by a segment delimiter (the end of the input terminates it)
 }
 
 func (cf c07Config) delims() []string {
@@ -213,6 +214,9 @@ func (cf c07Config) render(r *core.Rand, segs []c07Seg, c *core.Ctx) string {
 				}
 			}
 		}
+		if cf.openEnd && si == len(segs)-1 {
+			break
+		}
 		if cf.seg == "\n" && r.Chance(1, 3) {
 			sb.WriteString("\r") // CRLF line ends with a newline segment delimiter: the CR is dropped
 			c.Inc("crlf_line_ends_with_newline_delimiter")
@@ -330,6 +334,24 @@ func runC07(c *core.Ctx) {
 			c.Inc("payload:trailing-empty-element")
 		}
 		segs = append(segs, s)
+	}
+	if r.Chance(1, 3) {
+		cf.openEnd = true
+		c.Inc("inputs_with_unterminated_last_segment")
+		last := &segs[len(segs)-1]
+		if cf.rel != "" && r.Chance(1, 2) {
+			// ... whose last value ends in a released delimiter or release character
+			if len(last.elems) == 0 {
+				last.elems = append(last.elems, [][]string{{""}})
+			}
+			el := last.elems[len(last.elems)-1]
+			rp := el[len(el)-1]
+			rp[len(rp)-1] += r.Pick(cf.seg, cf.seg, cf.rel, cf.elem)
+			if strings.ContainsAny(rp[len(rp)-1], "\r\n") {
+				rp[len(rp)-1] = strings.NewReplacer("\r", "_", "\n", "_").Replace(rp[len(rp)-1])
+			}
+			c.Inc("unterminated_last_segment_ending_in_released_char")
+		}
 	}
 	input := cf.render(r, segs, c)
 	if nontrivial {
